@@ -11,7 +11,7 @@ CONSTANTS
   EnqAcct = FALSE
   HasDeadline = TRUE
   Prime = FALSE
-  MaxPub = 4
+  MaxPub = 3
   MaxRead = 3
   MaxStall = 2
   MaxSweep = 2
